@@ -52,3 +52,40 @@ func VerifC16FermatLint() {
 		zz.Assert(res.Status == lint.Pass, "no factorisation within the rounds passes")
 	}
 }
+
+// VerifC16FermatComplete: completeness of the search.  Every modulus that is a
+// product of two distinct factors p < q of equal parity can be written
+// n = A*A - d*d with A = (p+q)/2, d = (q-p)/2 >= 1 (p = A-d >= 2); the search
+// visits a = floor(sqrt(n))+1, +2, ... and must report a factorisation no later
+// than the round in which a reaches A.  Primality of p and q is not assumed
+// (for composite factors an earlier representation may be reported instead).
+func VerifC16FermatComplete() {
+	A, d := zz.BigInt(), zz.BigInt()
+	one := big.NewInt(1)
+	zz.Assume(d.Sign() > 0)
+	zz.Assume(A.Cmp(new(big.Int).Add(d, one)) > 0)
+	n := new(big.Int).Sub(new(big.Int).Mul(A, A), new(big.Int).Mul(d, d))
+	rounds := zz.Int()
+	zz.Assume(rounds >= 0 && rounds <= zz.Param("c16.rounds", 3))
+	// k = index of the round in which a == A
+	k := new(big.Int).Sub(A, new(big.Int).Add(new(big.Int).Sqrt(n), one))
+	zz.Assert(k.Sign() >= 0, "the search starts at or below (p+q)/2")
+	// explicit case split on (rounds, k): every path hands the solver a concrete
+	// round count and a concrete index, which keeps the nonlinear query small
+	for r := 0; r <= zz.Param("c16.rounds", 3); r++ {
+		if rounds != r {
+			continue
+		}
+		for j := 0; j < r; j++ {
+			if k.Cmp(big.NewInt(int64(j))) != 0 {
+				continue
+			}
+			zz.Cover("close factors")
+			err := checkPrimeFactorsTooClose(n, r)
+			zz.Assert(err != nil, "a product of two distinct factors within the configured rounds is reported")
+			return
+		}
+		zz.Cover("factors too far apart")
+		return
+	}
+}
